@@ -94,6 +94,9 @@ def build_grid(tier='quick'):
                 add('S_%s_%s_by_%s' % (OPNAME[op], kn, ck), [('x', kind), ('y', ck)], kind, ('shift', op, ('var', 'x', kind), ('var', 'y', ck), kind), 'bv', pre)
             for c in ((0, 1, 8, 31, 32, 40, 63, 64) if tier == 'quick' else (0, 1, 7, 8, 15, 16, 31, 32, 33, 40, 63, 64, 65)):
                 add('S_%s_%s_c%d' % (OPNAME[op], kn, c), [('x', kind)], kind, ('shift', op, ('var', 'x', kind), ('const', c, 'uint'), kind), 'bv')
+            # typed 64-bit constant counts beyond the int64 range ("shifts by counts of any size")
+            for nm, c in (('big63', 1 << 63), ('bigmax', (1 << 64) - 1)):
+                add('S_%s_%s_c%s' % (OPNAME[op], kn, nm), [('x', kind)], kind, ('shift', op, ('var', 'x', kind), ('const', c, 'uint64'), kind), 'jn')
         for k2 in KINDS:
             add('V_%s_to_%s' % (kn, k2), [('x', kind)], k2, ('conv', k2, ('var', 'x', kind)), 'jn')
     # nested / composite operand shapes (the result must not depend on the shape of an operand)
@@ -148,7 +151,12 @@ class Sem:
             x, y = self.ev(t[2], env), self.ev(t[3], env)
             kind = t[4]
             w, s = KINDS[kind]
-            if not self.bv(): raise Unsupported('shift semantics need mode bv')
+            if not self.bv():
+                # mode jn: only constant counts of at least the operand width (the result does not depend on the bits of x)
+                if t[3][0] == 'const' and t[3][1] >= w:
+                    if t[1] == '>>' and s: return z3.If(x < 0, self.num(-1), self.num(0))
+                    return self.num(0)
+                raise Unsupported('shift semantics need mode bv')
             # counts are unsigned (or non-negative): compare as unsigned 64-bit
             big = z3.UGE(y, z3.BitVecVal(w, 64))
             if t[1] == '<<':
@@ -229,9 +237,26 @@ class PatternReplayer:
     def replay(self, ob):
         s = z3.Solver(); s.set('timeout', 20000); s.add(ob.hyps)
         if ob.kind == 'proof': s.add(z3.Not(ob.goal))
-        if s.check() != z3.sat:
-            return {'violates': False, 'note': 'in-process solver did not reproduce the model'}
-        m = s.model()
+        last = None
+        # an obligation that does not mention every operand (a helper precondition, say) leaves the others to the solver,
+        # which likes 0: up to four models with pairwise different operand values are tried on the real code
+        for attempt in range(4):
+            if s.check() != z3.sat:
+                break
+            m = s.model()
+            last = self.replay_model(m)
+            if last.get('violates'):
+                return last
+            blk = []
+            for (pn, pk) in self.case.params:
+                v = self.entry.env[pn]
+                for t in ([v.fields['$high'], v.fields['$low']] if KINDS[pk][0] == 64 else [v]):
+                    blk.append(t != m.eval(t, model_completion=True))
+            if not blk: break
+            s.add(z3.And(blk))
+        return last or {'violates': False, 'note': 'in-process solver did not reproduce the model'}
+
+    def replay_model(self, m):
         env, jsargs = {}, []
         def num(v):
             r = m.eval(v, model_completion=True)
